@@ -17,6 +17,7 @@ META = dict(
 EXE = {'Clipper2Lib::RectClip64::ExecuteInternal(': 'stub_rc_execint', 'Clipper2Lib::RectClip64::CheckEdges(': 'stub_rc_checkedges',
        'Clipper2Lib::RectClip64::TidyEdges(': 'stub_rc_tidy', 'Clipper2Lib::RectClip64::GetPath(': 'stub_rc_getpath'}
 OBLIGATIONS = [
+  O('C12.c-reuse-vs-fresh', 'eng_whole.cpp', 'harness_reuse_vs_fresh', unwind=14, timeout=1800, object_bits=16, tiers='t', bound='AddSubject, Execute(Union), AddReuseableData(shared container), Execute(Intersection) vs fresh objects; two crossing triangles', desc='a used clipper given shared reusable data returns what a fresh clipper returns; the container is unchanged'),
   O('C12.a-history-vs-fresh', 'eng_whole.cpp', 'harness_history_vs_fresh', unwind=14, timeout=1800, object_bits=16, tiers='t', bound='AddSubject, Execute(Union), havoc of cliptype_/fillrule_/bot_y_/using_polytree_/succeeded_/sel_ and of all writable globals, AddClip, Execute(Intersection), Execute again; two crossing triangles', desc='the used object returns exactly what a fresh object returns, and repeats it bit-identically'),
   O('C12.b-clear-vs-fresh', 'eng_whole.cpp', 'harness_clear_vs_fresh', unwind=14, timeout=1800, object_bits=16, tiers='t', bound='closed+open subjects, Execute, Clear(), new subject+clip, Execute', desc='Clear() empties minima/vertex lists and flags; afterwards the object behaves like a fresh one'),
 ] + [O('C12.f-rectclip-perpath-cleanup-res%d' % r, 'rect_units.cpp', 'harness_perpath_cleanup', defs=['RES=%d' % r], replace=EXE, unwind=10, tiers='qt' if r in (1, 6) else 't', bound='two paths in one Execute; residue pattern %d (bits: start locations 0-2, result ring + edge entry)' % r, desc='RectClip64::Execute empties results_, edges_, start_locs_, op_container_ after every path, whatever the path left behind') for r in (0, 1, 2, 4, 5, 6)] + [
